@@ -3,7 +3,8 @@
    (interpreter [exec] of a call sequence), imap/envelope.go envelope / Envelope, imap/structure.go Structure,
    structure, singlePartStructure, childStructures, addDispInfo (the functions that produce the call sequences over
    an abstract MIME tree [mtree]: every string is whatever header.Get / ParseMediaType / ParseAddressList returned).
-   structure() follows the code AFTER notes/C12-fix-2.diff (a message/rfc822 part is always a single part).
+   structure() is modelled for both decision rules between single part and multipart (parameter msg_single: the code
+   as it is / notes/C12-fix-2.diff); T1 (Gen/FactsStructure.v) extracts which one the source uses.
    strconv.Quote is the Section variable [esc] (the text between the quotes) with the hypothesis that it is the
    content of a lexically closed quoted string.
    dualParListWriter: BODY receives everything except what is written through toSingleWriterFrom2nd
@@ -113,14 +114,26 @@ Definition disp_calls (h : hinfo) : call :=
   end.
 
 Section Writer.
+  Variable msg_single : bool.
+  (* how structure() chooses between singlePartStructure and the multipart form:
+       false: `len(children) == 0`                      -- the code as it is; the children of a message/rfc822
+                                                          section are the parts of the embedded (multipart) message
+       true : `len(children) == 0 || type is message/rfc822`  -- notes/C12-fix-2.diff
+     Gen/FactsStructure.v (T1) says which of the two the source contains. *)
   Variable ext : bool.   (* true: BODYSTRUCTURE (extension data included), false: BODY *)
 
   Definition only_ext (cs : list call) : list call := if ext then cs else [].
 
+  (* child_calls t: childStructures over section.Children() (rfc822 load(): a message/rfc822 section has the children
+     of its embedded message); structure_calls t: the calls of structure(t) *)
   Fixpoint structure_calls (t : mtree) : list call :=
     match t with
     | MNode h _ size lines emb children =>
-      let single :=
+      let cc := if is_msg h
+                then (if msg_single then [] else match emb with Some c => child_calls c | None => [] end)
+                else map (fun c => CList Adj (structure_calls c)) children in
+      match cc with
+      | [] =>
         [CStr (h_type h); CStr (h_sub h); map_calls Auto (h_params h);
          CStr (h_id h); CStr (h_desc h); CStr (h_enc h); CNum size]
         ++ (if is_msg h
@@ -130,15 +143,17 @@ Section Writer.
                  end
             else [])
         ++ (if is_text h || is_msg h then [CNum lines] else [])
-        ++ only_ext [CStr (h_md5 h); disp_calls h; CStr (h_lang h); CStr (h_loc h)] in
-      match children with
-      | [] => single
+        ++ only_ext [CStr (h_md5 h); disp_calls h; CStr (h_lang h); CStr (h_loc h)]
       | _ :: _ =>
-        if is_msg h then single
-        else map (fun c => CList Adj (structure_calls c)) children
-             ++ [CStr (h_sub h)]
-             ++ only_ext [map_calls Auto (h_params h); disp_calls h; CStr (h_lang h); CStr (h_loc h)]
+        cc ++ [CStr (h_sub h)]
+        ++ only_ext [map_calls Auto (h_params h); disp_calls h; CStr (h_lang h); CStr (h_loc h)]
       end
+    end
+  with child_calls (t : mtree) : list call :=
+    match t with
+    | MNode h _ _ _ emb children =>
+      if is_msg h then match emb with Some c => child_calls c | None => [] end
+      else map (fun c => CList Adj (structure_calls c)) children
     end.
 End Writer.
 
@@ -173,9 +188,10 @@ Section Exec.
   (* imap.Envelope: newParamListWithoutGroup(); envelope(header, &paramList, writer) *)
   Definition write_envelope (e : envinfo) : bytes := exec (envelope_calls Adj e) true.
   (* imap.Structure: c := newParamListWithGroup(writer); structure(section, &c, writer); c.finish(writer) *)
-  Definition write_structure (ext : bool) (t : mtree) : bytes := exec (CList Adj (structure_calls ext t)) true.
-  Definition write_body (t : mtree) : bytes := write_structure false t.
-  Definition write_bodystructure (t : mtree) : bytes := write_structure true t.
+  Definition write_structure (msg_single ext : bool) (t : mtree) : bytes :=
+    exec (CList Adj (structure_calls msg_single ext t)) true.
+  Definition write_body (msg_single : bool) (t : mtree) : bytes := write_structure msg_single false t.
+  Definition write_bodystructure (msg_single : bool) (t : mtree) : bytes := write_structure msg_single true t.
 End Exec.
 
 (* ---------- strconv.Quote for the byte strings the generator uses (ASCII; bytes >= 0x80 are kept: the generator only
